@@ -71,6 +71,31 @@ def _object_kwargs(cls_name):
     return {}
 
 
+GEOM = ("vertices", "cells", "origin", "rotation", "dip", "u_cell_size", "v_cell_size", "w_cell_size", "u_count", "v_count",
+        "w_count", "u_cell_delimiters", "v_cell_delimiters", "z_cell_delimiters", "centroids", "n_cells", "n_vertices")
+
+
+def _geom(e):
+    """digest of an object's geometry through its public getters (C01: geometry arrays; C12: a copy equals its source)"""
+    out = []
+    for name in GEOM:
+        if not hasattr(type(e), name):
+            continue
+        try:
+            v = getattr(e, name)
+        except Exception as exc:  # pylint: disable=broad-except
+            out.append((name, "raises " + type(exc).__name__))
+            continue
+        if v is None:
+            out.append((name, None))
+        else:
+            arr = np.asarray(v)
+            if arr.dtype.names:
+                arr = np.array(arr.tolist(), dtype=float)
+            out.append((name, tuple(np.round(arr.astype(float), 6).ravel().tolist())))
+    return tuple(out)
+
+
 # every fixture object carries 2 values per data set, so that data can be copied or moved between any two objects
 N_VALUES = {"Points": 2, "Curve": 2, "Surface": 2, "Grid2D": 2, "BlockModel": 2, "Octree": 2, "Drillhole": 2,
             "Label": 2, "NoTypeObject": 2}
@@ -205,8 +230,13 @@ class World:
                 e = self.group_class(s).create(ws, **kw)
             else:
                 cls = self.object_class(s)
-                kw.update(_object_kwargs(cls.__name__))
+                geo = _object_kwargs(cls.__name__)
+                kw.update(geo)
                 e = cls.create(ws, **kw)
+                # the caller's arrays stay the caller's: re-using a buffer afterwards must not reach the entity
+                for arr in geo.values():
+                    if isinstance(arr, np.ndarray) and arr.dtype.kind == "f":
+                        arr += 1000.0
             self.bind(s, e)
         elif act == "CreateDeferred":
             e = ws.create_entity(self.group_class(a["s"]), save_on_creation=False,
@@ -226,11 +256,7 @@ class World:
             spec = {"values": self.values(a["v"], n), "association": assoc}
             others = [d for s2, d in self.side.items() if kind(s2) == "D" and getattr(d, "association", None) is not None
                       and d.name not in SPECIAL]
-            if self.variant % 5 == 2 and others and self.dkind == "float" and \
-                    all(np.asarray(d.values).dtype.kind == "f" for d in others[:1] if d.values is not None):
-                # join the type of an existing data set: the shared type must stay as it is
-                spec["entity_type"] = {"uid": others[0].entity_type.uid, "primitive_type": "FLOAT",
-                                       "number_of_bins": 25, "units": "unit-x"}
+            del others   # (types are shared through SetType and copies, as the specification says)
             e = o.add_data({a["n"]: spec})
             self.bind(a["s"], e)
         elif act == "AddComment":
@@ -261,6 +287,8 @@ class World:
                 d.values = arr
             else:
                 d.values = new
+        elif act == "SetType":
+            self.ent(a["s"]).entity_type = self.ent(a["e"]).entity_type
         elif act == "SetMeta":
             self.ent(a["s"]).metadata = {"tok": int(a["v"]), "nested": {"tok": int(a["v"])}}
         elif act in ("Move", "MoveSame"):
@@ -366,10 +394,35 @@ class World:
             if kind(a["s"]) == "D":
                 new = e.copy(parent=self.ent(a["p"]))
             else:
-                new = e.copy(parent=self.ent(a["p"]), copy_children=bool(a["deep"]))
+                opts = {}
+                if self.variant % 3 != 2:
+                    opts["name"] = e.name            # an override meant for the copied entity only (here: no change)
+                if self.variant % 5 == 1:
+                    opts["clear_cache"] = True       # lazily re-loaded afterwards: nothing observable changes
+                geo0 = _geom(e) if kind(a["s"]) == "O" else None
+                new = e.copy(parent=self.ent(a["p"]), copy_children=bool(a["deep"]), **opts)
+                if geo0 is not None and _geom(e) != geo0:
+                    raise Divergence("copy-changes-source-geometry",
+                                     f"copy (options {sorted(opts)}) changed the source: geometry {geo0} became {_geom(e)}", "C12,C01")
+                if kind(a["s"]) == "O" and _geom(new) != _geom(e):
+                    raise Divergence("copy-geometry-differs",
+                                     f"after copy (options {sorted(opts)}) source geometry {_geom(e)} copy {_geom(new)}", "C12")
             self.bind_copy(int(a["s"]), new, a, pre)
         elif act == "Copy2":
             self.copy2(a)
+        elif act == "Copy2Data":
+            src = self.ent(a["s"])
+            t = int(a["t"])
+            new = src.copy(parent=self.w2side[int(a["y"])])
+            gen = (t - 1000) // 100
+            if gen == 0 and new.uid != src.uid:
+                raise Divergence("copy-other-workspace-uid-not-kept",
+                                 f"data slot {a['s']}: the identifier was free in the target workspace but the copy got {new.uid}", "C06")
+            if gen == 1 and (new.uid == src.uid or new.uid in self.w2uid.values()):
+                raise Divergence("copy-other-workspace-uid-reused",
+                                 f"data slot {a['s']}: identifier {new.uid} is already in use in the target workspace", "C06")
+            self.w2uid[t] = new.uid
+            self.w2side[t] = new
         elif act == "Remove2":
             y = int(a["y"])
             e = self.w2side[y]
@@ -602,7 +655,8 @@ class World:
                 key = str(s)
                 if key in out:
                     key = key + "#dup"
-                out[key] = (type(c).__name__, ps, c.name, bool(c.allow_delete), val, pgs)
+                out[key] = (type(c).__name__, ps, c.name, bool(c.allow_delete), val, pgs,
+                            _geom(c) if kind(s) == "O" else ())
                 if hasattr(c, "children"):
                     stack.append((c, s))
         return out
@@ -638,7 +692,12 @@ class World:
             if uid == self.root_uid or uid in pg_uids:
                 continue
             live_reg.add(str(self.slot_of(uid)))
-        return {"mem": mem, "kids": kids, "pg": pgs, "reg_live": sorted(live_reg)}
+        tys = {}
+        for s, e in ents.items():
+            if kind(s) == "D" and e.name not in SPECIAL:
+                tys.setdefault(str(e.entity_type.uid), []).append(str(s))
+        return {"mem": mem, "kids": kids, "pg": pgs, "reg_live": sorted(live_reg),
+                "types": sorted(sorted(v) for v in tys.values())}
 
     def type_rules(self, snap):
         """C06: all groups / objects of one class share a single type node; a type identifier occurs in one
@@ -687,10 +746,13 @@ class World:
             return u2s.get(uid, f"?{uid}")
 
         fnode, flink, fpg = {}, set(), {}
+        tys = {}
         for cont in CONT:
             for uid, node in snap["nodes"].get(cont, {}).items():
                 s = sl(uid)
                 val = 0
+                if cont == "Data" and node["attrs"].get("Name") not in SPECIAL:
+                    tys.setdefault(str((node["type"] or {}).get("id")), []).append(str(s))
                 if cont == "Data":
                     ds = node["datasets"].get("Data")
                     val = self.token(ds.get("value")) if ds else None
@@ -720,7 +782,7 @@ class World:
                         props = [props]
                     fpg[str(p2s.get(pu, f"?{pu}"))] = {"owner": s, "name": attrs.get("Group Name"),
                                                       "props": sorted(str(sl(h5snap._uid(str(x)))) for x in props)}
-        return {"fnode": fnode, "flink": sorted(flink), "fpg": fpg}
+        return {"fnode": fnode, "flink": sorted(flink), "fpg": fpg, "types": sorted(sorted(v) for v in tys.values())}
 
 
 def _meta_token(md):
@@ -757,7 +819,7 @@ def expect_live(st):
     kids = {c: sorted(str(x) for x in v) for c, v in st["kids"].items() if c == "0" or st["mem"][c]["par"] != -1}
     pgs = {p: {"owner": r["owner"], "name": r["name"], "props": sorted(str(x) for x in r["props"])}
            for p, r in st["pg"].items() if r["owner"] != -1}
-    return {"mem": mem, "kids": kids, "pg": pgs, "reg_live": sorted(mem)}
+    return {"mem": mem, "kids": kids, "pg": pgs, "reg_live": sorted(mem), "types": _partition(st["mem"], lambda r: r["par"] != -1)}
 
 
 def expect_file(st):
@@ -767,7 +829,16 @@ def expect_file(st):
     flink = sorted((str(a), str(b)) for a, b in st["flink"])
     fpg = {p: {"owner": r["owner"], "name": r["name"], "props": sorted(str(x) for x in r["props"])}
            for p, r in st["fpg"].items() if r["owner"] != -1}
-    return {"fnode": fnode, "flink": flink, "fpg": fpg}
+    return {"fnode": fnode, "flink": flink, "fpg": fpg, "types": _partition(st["fnode"], lambda r: r["on"])}
+
+
+def _partition(table, present):
+    """data slots grouped by the type token of the specification (special children have fixed types)"""
+    groups = {}
+    for s, r in table.items():
+        if kind(s) == "D" and present(r) and r["name"] not in SPECIAL:
+            groups.setdefault(r["ty"], []).append(str(s))
+    return sorted(sorted(v) for v in groups.values())
 
 
 def expect_w2(st):
